@@ -60,10 +60,14 @@ EvVerdict(s, e, M2) ==
          IF e.p \in PrefixesOf(M)
          THEN (IF e.res.k = "val" /\ e.res.iri = (CHOOSE x \in M : x[1] = e.p)[2] \o e.l THEN "ok" ELSE "ExpandBack")
          ELSE (IF e.res.k = "raise" THEN "ok" ELSE "QnameBound:expanded-unbound-prefix")
+    [] e.op = "parse" ->      \* a document's prefix declarations touch only the prefixes and namespaces they name
+         IF Has(e, "raise") THEN "ok"
+         ELSE IF \E x \in M : x \notin M2 /\ (\A i \in 1..Len(e.prefixes) : e.prefixes[i][1] # x[1] /\ e.prefixes[i][2] # x[2]) THEN "ParseFrame:other-binding-lost"
+         ELSE "ok"
     [] OTHER -> "ok"
 
 Judge(s, e) ==
-  IF e.op \notin {"bind", "cq", "qname", "curie", "n3", "cq_strict", "expand", "serialize", "parse", "new"} THEN "UnknownEvent"
+  IF e.op \notin {"bind", "cq", "qname", "curie", "n3", "cq_strict", "expand", "serialize", "parse", "new", "reset"} THEN "UnknownEvent"
   ELSE LET v1 == ObsVerdict(e.obs) IN
        IF v1 # "ok" THEN v1 ELSE EvVerdict(s, e, Pairs(e.obs.listing))
 
